@@ -77,6 +77,46 @@ func Run(cfg core.Config, scope core.Scope) *core.Result {
 					}
 					return true
 				})
+				// the same ordering written with the builtins:
+				// xid, yid := min(fid, tid), max(fid, tid)
+				ast.Inspect(fd.Body, func(n ast.Node) bool {
+					as, ok := n.(*ast.AssignStmt)
+					if !ok || len(as.Lhs) != 2 || len(as.Rhs) != 2 {
+						return true
+					}
+					var calls [2]*ast.CallExpr
+					for i, r := range as.Rhs {
+						c, ok := ast.Unparen(r).(*ast.CallExpr)
+						if !ok || len(c.Args) != 2 {
+							return true
+						}
+						id, ok := c.Fun.(*ast.Ident)
+						if !ok {
+							return true
+						}
+						if _, isBuiltin := info.Uses[id].(*types.Builtin); !isBuiltin || (id.Name != "min" && id.Name != "max") {
+							return true
+						}
+						calls[i] = c
+					}
+					if calls[0].Fun.(*ast.Ident).Name == calls[1].Fun.(*ast.Ident).Name {
+						return true
+					}
+					res.Obligations++
+					res.Count("swaps_guarded_by_a_comparison_of_two_variables", 1)
+					set := func(c *ast.CallExpr) [2]string {
+						a, b := types.ExprString(c.Args[0]), types.ExprString(c.Args[1])
+						if b < a {
+							a, b = b, a
+						}
+						return [2]string{a, b}
+					}
+					if set(calls[0]) != set(calls[1]) {
+						res.Add(core.Finding{Rule: "SWAP.cond", Key: fmt.Sprintf("SWAP.cond|%s|%s", name, types.ExprString(as.Rhs[0])+", "+types.ExprString(as.Rhs[1])), Pos: core.Pos(as.Pos()), Func: name,
+							Msg: fmt.Sprintf("%s, %s orders a pair with min and max of different operands: the two results are not the smaller and the larger of one pair", types.ExprString(as.Rhs[0]), types.ExprString(as.Rhs[1]))})
+					}
+					return true
+				})
 				ast.Inspect(fd.Body, func(n ast.Node) bool {
 					is, ok := n.(*ast.IfStmt)
 					if !ok || len(is.Body.List) == 0 {
